@@ -127,6 +127,8 @@ structure StoreShape where
   getReadsUnderLock : Bool
   /-- NamedTrustMatrices.Set uses `Swap`; created = !loaded -/
   setUsesSwap : Bool
+  /-- … and never touches the replaced object (`_, loaded := ntms.Swap(id, tm)`): a reader may still hold it -/
+  setLeavesPreviousAlone : Bool
   /-- NamedTrustMatrices.Merge: `LoadOrStore` then a locked `Merge` on the loaded object -/
   mergeLoadOrStoreThenLockedMerge : Bool
   /-- DeleteLocalTrust uses `LoadAndDelete` -/
@@ -140,7 +142,7 @@ structure StoreShape where
 deriving Repr, DecidableEq, Inhabited
 
 def StoreShape.safe (s : StoreShape) : Bool :=
-  s.loadStoredDeepCopiesUnderLock && s.getReadsUnderLock && s.setUsesSwap &&
+  s.loadStoredDeepCopiesUnderLock && s.getReadsUnderLock && s.setUsesSwap && s.setLeavesPreviousAlone &&
   s.mergeLoadOrStoreThenLockedMerge && s.deleteUsesLoadAndDelete && s.updateAnswers400 &&
   s.grpcDeepCopiesInputs && s.grpcTimestampOnlyAdvances
 
